@@ -299,10 +299,9 @@ def run_parent(pid, tier, seed, workers=None, cases=None, only=None, budget=None
     modname = find_module(pid)
     sys.path[:0] = [ROOT]
     # the parent itself never imports nifty unless the check's hooks do
-    os.environ.update({k: v for k, v in child_env(seed).items()
-                       if k in ("PYTHONPATH", "JAX_PLATFORMS", "JAX_ENABLE_X64",
-                                "NIFTY_VERIF", "OMP_NUM_THREADS", "MPLBACKEND",
-                                "OPENBLAS_NUM_THREADS", "PYTHONDONTWRITEBYTECODE")})
+    # the parent's own environment = the workers' environment, so that children started from
+    # parent_pre (reference runs) and from workers (cases) see identical XLA/BLAS settings
+    os.environ.update(child_env(seed))
     for p in (REPO, DEPS):
         if p not in sys.path:
             sys.path.insert(0, p)
@@ -313,10 +312,9 @@ def run_parent(pid, tier, seed, workers=None, cases=None, only=None, budget=None
         cfg["workers"] = workers
     if cases:
         cfg["cases"] = cases
+        cfg["cases_cli"] = cases
     if budget:
         cfg["budget_s"] = budget
-    ncases = int(cfg.get("cases", 0))
-    nworkers = max(1, min(int(cfg.get("workers", 4)), max(ncases, 1)))
     budget_s = float(cfg.get("budget_s", 60))
     pk = Parent(pid, meta, tier, seed)
     pk.partial = only is not None      # --only/--replay runs do not overwrite the evidence
@@ -325,11 +323,16 @@ def run_parent(pid, tier, seed, workers=None, cases=None, only=None, budget=None
     workdir = os.path.join(ROOT, ".work", f"{pid}-{os.getpid()}")
     os.makedirs(workdir, exist_ok=True)
     pk.workdir = workdir
+    os.environ["VERIF_WORKDIR"] = workdir
     deadline = time.time() + budget_s
     pk.deadline = deadline
 
     if hasattr(mod, "parent_pre"):
-        mod.parent_pre(pk)
+        mod.parent_pre(pk)          # may adjust pk.cfg["cases"] (e.g. enumerated crash points)
+    ncases = int(cfg.get("cases", 0))
+    nworkers = max(1, min(int(cfg.get("workers", 4)), max(ncases, 1)))
+    deadline = time.time() + budget_s      # the case budget starts after parent_pre
+    pk.deadline = deadline
 
     procs = []
     if ncases > 0 and hasattr(mod, "case"):
